@@ -7,7 +7,9 @@ import (
 	"encoding/hex"
 	"fmt"
 	"math/big"
+	"runtime"
 	"testing"
+	"time"
 
 	cpebble "github.com/cockroachdb/pebble"
 	"github.com/cockroachdb/pebble/vfs"
@@ -338,12 +340,33 @@ func palindrome(seed uint32) []byte {
 	return id
 }
 
+func pruneGoroutineAlive() bool {
+	buf := make([]byte, 1<<20)
+	for {
+		n := runtime.Stack(buf, true)
+		if n < len(buf) {
+			return bytes.Contains(buf[:n], []byte("ContentStorage).prune.func1"))
+		}
+		buf = make([]byte, 2*len(buf))
+	}
+}
+
 func runC06Boundary(p c06Boundary, c *stats.Case) error {
 	var node enode.ID // all zero: distance == content id
 	db, err := cpebble.Open("", &cpebble.Options{FS: vfs.NewMem()})
 	if err != nil {
 		return fmt.Errorf("harness: %v", err)
 	}
+	// prune() starts `go db.Compact(...)`, which nobody joins and which panics on a closed database: wait until
+	// those goroutines are gone, then close (a store per case that is never closed costs ~3.5 MB each)
+	defer func() {
+		for i := 0; i < 5000 && pruneGoroutineAlive(); i++ {
+			time.Sleep(200 * time.Microsecond)
+		}
+		if !pruneGoroutineAlive() {
+			_ = db.Close()
+		}
+	}()
 	st, err := spebble.NewStorage(storage.PortalStorageConfig{StorageCapacityMB: 1, NodeId: node, NetworkName: "c06"}, db)
 	if err != nil {
 		return fmt.Errorf("harness: %v", err)
